@@ -15,6 +15,10 @@ def run(prog, rep, tier):
     apply(rep, "O2", "cmp overrides cast to their own class", r_order.o2(prog), 15)
     apply(rep, "O3", "strict weak order on the abstract domain", r_order.o3(prog, tier), 1)
     apply(rep, "O3d", "value_die::cmp consistency on abstract DIEs", r_order.o3_die(prog), 1)
+    import r_core
+    g = r_core.p5(prog, tier)
+    apply(rep, "P5", "strings compare bytewise over their whole length (value_str::cmp interpreted on strings with embedded NUL and bytes >= 0x80)",
+          ([i for i in g[0] if i[0] == "P5:cmp"], [f for f in g[1] if f["key"] == "P5:cmp"]), 1)
     apply(rep, "O7", "units compare equal exactly when they are the same unit", r_order.o7(prog), 2)
     apply(rep, "O6", "integer comparison agrees with mathematical order on a representative signed/unsigned domain", r_order.o6(prog), 2)
     apply(rep, "O5", "the order on whole stacks is a strict weak order with == as its equivalence", r_order.o5(prog, tier), 1)
